@@ -197,7 +197,8 @@ REC_FIELDS = [
     {'n': 'c', 'd': {'k': 'BOOLEAN', 'tags': []}, 'opt': 'D', 'dv': True},
     {'n': 'd', 'd': {'k': 'SEQOF', 'tags': [['I', 'C', 1]], 'of': {'k': 'INTEGER', 'tags': []}}, 'opt': 'O'},
     {'n': 'e', 'd': {'k': 'UTF8', 'tags': [['E', 'C', 2]]}, 'opt': 'R'},
-    {'n': 'f', 'd': {'k': 'SEQ', 'tags': [['I', 'C', 3]], 'fields': [{'n': 'x', 'd': {'k': 'INTEGER', 'tags': []}, 'opt': 'R'}]},
+    {'n': 'f', 'd': {'k': 'SEQ', 'tags': [['I', 'C', 3]], 'fields': [{'n': 'x', 'd': {'k': 'INTEGER', 'tags': []}, 'opt': 'R'},
+                                                                   {'n': 'y', 'd': {'k': 'INTEGER', 'tags': []}, 'opt': 'R'}]},
      'opt': 'O'},
     {'n': 'g', 'd': {'k': 'NULL', 'tags': [['I', 'C', 4]]}, 'opt': 'O'},
 ]
@@ -223,14 +224,15 @@ def _gen_rec(r):
                 else:
                     f = r.choice(cand)
                     i = names.index(f['n'])
-                    ops.append(['nested_mut', f['n'], r.choice([0, 1, -1, 70000])])
+                    ops.append(['nested_mut', f['n'], r.choice([0, 1, -1, 70000]), r.choice(['x', 'x', 'y'])])
                     continue
             if m in ('set_name', 'set_pos', 'set_type'):
                 ops.append([m, f['n'] if m == 'set_name' else i, _elem_value(r, f['d']), r.random() < 0.3])
             elif m == 'clone':
                 ops.append(['clone', r.random() < 0.7])
             elif m in ('get_name_inst', 'get_pos_inst'):
-                ops.append([m, f['n'] if m == 'get_name_inst' else i])
+                # (the third item: the read also passes default=, which must not change what happens to the slot)
+                ops.append([m, f['n'] if m == 'get_name_inst' else i, r.random() < 0.4])
             else:
                 ops.append([m])
         elif x < 0.85:
@@ -314,6 +316,18 @@ def _gen_scalar(r):
 def _der(obj):
     from pyasn1.codec.der import encoder
     return encoder.encode(obj)
+
+
+def _norm_member(a):
+    """A member that is a schema object, or a record none of whose own members is set, is a placeholder: the
+    same abstract content as an absent member."""
+    if a is None:
+        return None
+    if len(a) == 3 and a[2] == 'NOVALUE':
+        return None
+    if len(a) == 3 and a[0] in ('Sequence', 'Set') and isinstance(a[2], tuple) and all(x is None for x in a[2]):
+        return None
+    return a
 
 
 def _observe_der(o, isv):
@@ -740,12 +754,14 @@ class RecRun(object):
         from pyasn1 import error
         content = []
         for i, f in enumerate(self.fields):
-            c = o.getComponentByPosition(i, default=None, instantiate=False)
-            if c is None:
+            # through the public `components` list: getComponentByPosition(instantiate=False) hides a member
+            # that is not yet a complete value (a half-filled nested record), with or without default=
+            comps = o.components
+            c = comps[i] if (comps is not U.p.base.noValue and i < len(comps)) else None
+            if c is None or c is U.p.base.noValue:
                 a = None
             else:
-                a = U.absval(c)
-                a = None if (len(a) == 3 and a[2] == 'NOVALUE') else a
+                a = _norm_member(U.absval(c))
             if a is None and f['opt'] == 'D':
                 # an absent DEFAULT component and the default value are the same abstract content;
                 # the library instantiates the default lazily (e.g. on encode)
@@ -770,6 +786,13 @@ class RecRun(object):
                 out.append('!' + type(e).__name__)
         return repr(out)
 
+    def _want_complete(self, m, i):
+        """What a read with default= returns: the member if it is a complete value, else the default."""
+        pv = (m or {}).get(self.names[i])
+        if self.names[i] == 'f' and isinstance(pv, dict) and not ('x' in pv and 'y' in pv):
+            return U.absval(self.sub_schema(i)) if self.fields[i]['opt'] == 'D' else None
+        return self.expected_abs(m)[0][i]
+
     def expected_abs(self, m):
         content = []
         if m is None:
@@ -784,7 +807,10 @@ class RecRun(object):
                 else:
                     content.append(None)
             else:
-                content.append(U.absval(self.field_obj(i, pv)))
+                a_ = _norm_member(U.absval(self.field_obj(i, pv)))
+                if a_ is None and f['opt'] == 'D':
+                    a_ = U.absval(self.sub_schema(i))
+                content.append(a_)
         isv = all((f['opt'] != 'R') or (m.get(f['n']) not in (None, HOLE)) for f in self.fields)
         if isv:
             try:
@@ -823,14 +849,20 @@ class RecRun(object):
         if k in ('set_name', 'set_pos', 'set_type', 'clear', 'reset', 'clone', 'get_name_inst', 'get_pos_inst', 'nested_mut'):
             try:
                 if k == 'nested_mut':
-                    if op[1] not in self.names or md.get(op[1]) in (None, HOLE):
+                    if op[1] not in self.names:
                         return 'skip'
                     if op[1] == 'd':
+                        if md.get('d') in (None, HOLE):
+                            return 'skip'
                         o['d'].append(op[2])
                         md['d'] = list(md['d']) + [op[2]]
                     else:
-                        o['f']['x'] = op[2]
-                        md['f'] = dict(md['f'], x=op[2])
+                        # the documented lazy way: o['f'] instantiates the member if need be, then one of its two
+                        # mandatory fields is assigned (the member may stay half filled for a while)
+                        sub = op[3] if len(op) > 3 else 'x'
+                        o['f'][sub] = op[2]
+                        cur = md.get('f')
+                        md['f'] = dict(cur if isinstance(cur, dict) else {}, **{sub: op[2]})
                     self.m = md
                 elif k in ('set_name', 'set_pos', 'set_type'):
                     i = self.names.index(op[1]) if k == 'set_name' else op[1]
@@ -864,10 +896,11 @@ class RecRun(object):
                     self.m = copy.deepcopy(m) if (op[1] and m is not None) else {}
                 else:
                     i = self.names.index(op[1]) if k == 'get_name_inst' else min(op[1], len(self.fields) - 1)
+                    kw_ = {'default': None} if (len(op) > 2 and op[2]) else {}
                     if k == 'get_name_inst':
-                        o.getComponentByName(self.names[i])
+                        o.getComponentByName(self.names[i], **kw_)
                     else:
-                        o.getComponentByPosition(i)
+                        o.getComponentByPosition(i, **kw_)
                     # documented: instantiates a placeholder in an empty slot (a mutator in the model)
                     if m is None:
                         self.m = md
@@ -886,14 +919,14 @@ class RecRun(object):
                     i = min(op[1], len(self.fields) - 1)
                     x = o.getComponentByPosition(i, default=None, instantiate=False)
                     got = None if x is None else U.absval(x)
-                    want = self.expected_abs(m)[0][i]
+                    want = self._want_complete(m, i)
                     if got is None and self.fields[i]['opt'] == 'D':
                         got = U.absval(self.sub_schema(i))
                 elif k == 'get_name_default':
                     i = self.names.index(op[1])
                     x = o.getComponentByName(op[1], default=None, instantiate=False)
                     got = None if x is None else U.absval(x)
-                    want = self.expected_abs(m)[0][i]
+                    want = self._want_complete(m, i)
                     if got is None and self.fields[i]['opt'] == 'D':
                         got = U.absval(self.sub_schema(i))
                 elif k == 'keys':
